@@ -79,6 +79,13 @@ fn families() -> Vec<Family> {
         // alias only, through a symbol-free constant (evaluated on alternating inputs in the
         // repetition leg)
         Family { name: "no-functions", rules: vec!["facts.id", "facts.other == i2", "id + other", "facts", "i1 + i1", "if facts.id > i1 then facts.other else id", "if false then i1 else id * i2", "if true then other else i0", "if i1 == i1 then [id, other] else none"], inputs: vec![in1.clone(), in2.clone(), RV::Int(21), RV::Int(16)] },
+        // access paths through symbols, written in the DSL and built through the API, whose flattened
+        // renderings coincide; evaluated on alternating inputs in the repetition leg
+        Family {
+            name: "symbol-paths",
+            rules: vec![":status.404", "#api:status[\"404\"]", ":status.0", "#api:status[\"0\"]", ":codes.0", "#api:codes[\"0\"]", "if strict then :limits.eu.max else none", "#api:(limits.eu)[\"max\"]", ":limits.eu.max", ":limit * i2", "x.0", "#api:x[\"0\"]"],
+            inputs: vec![RV::map(&[("strict", RV::Bool(true)), ("x", RV::List(vec![RV::Int(5)]))]), RV::map(&[("strict", RV::Bool(false)), ("x", RV::map(&[("0", RV::Int(6))]))])],
+        },
         // both interleaved evaluations are suspended 150 levels deep (per-thread bookkeeping of
         // nesting adds up across suspended evaluations)
         Family { name: "deep-interleave", rules: vec![DEEP_RULE.as_str(), "c(other)"], inputs: vec![in1, in2] },
@@ -88,14 +95,45 @@ fn families() -> Vec<Family> {
 fn build(rules: &[String], world: &Arc<Mutex<World>>) -> Result<RuleSet, String> {
     let h = handler(world);
     let mut b = ruleset();
+    for (n, v) in fixed_symbols() {
+        b = b.with_symbol(n, v.to_value());
+    }
     for (i, text) in rules.iter().enumerate() {
-        let e = Expr::parse(text).map_err(|e| format!("rule {text:?}: {e}"))?;
+        let e = rule_expr(text)?;
         b = b.with_rule(Rule::new(format!("r{i}"), BTreeMap::new(), e)).map_err(|e| e.to_string())?;
     }
     for (n, c) in [("c", true), ("n", false), ("bad", true)] {
         b = b.with_function(probe(n, c, &h)).map_err(|e| e.to_string())?;
     }
     Ok(b.build())
+}
+
+/// symbols registered in every C12 ruleset (names and keys chosen so that a flattened rendering of
+/// an access path would be ambiguous: digit keys, a symbol name containing a dot)
+fn fixed_symbols() -> Vec<(&'static str, RV)> {
+    vec![
+        ("status", RV::map(&[("404", RV::str("not found")), ("200", RV::str("ok")), ("0", RV::str("zero"))])),
+        ("codes", RV::List(vec![RV::str("first"), RV::str("second")])),
+        ("limits", RV::map(&[("eu", RV::map(&[("max", RV::Int(50))]))])),
+        ("limits.eu", RV::map(&[("max", RV::Int(100))])),
+        ("limit", RV::Int(10)),
+        ("flag", RV::Bool(true)),
+    ]
+}
+
+/// a rule given as text; texts starting with `#api:` name expressions that only exist through the
+/// constructor API
+fn rule_expr(text: &str) -> Result<Expr, String> {
+    use reval::expr::Index;
+    Ok(match text {
+        "#api:status[\"404\"]" => Expr::index(Expr::symbol("status"), Index::Map("404".into())),
+        "#api:status[\"0\"]" => Expr::index(Expr::symbol("status"), Index::Map("0".into())),
+        "#api:codes[\"0\"]" => Expr::index(Expr::symbol("codes"), Index::Map("0".into())),
+        "#api:(limits.eu)[\"max\"]" => Expr::index(Expr::symbol("limits.eu"), Index::Map("max".into())),
+        "#api:x[\"0\"]" => Expr::index(Expr::reff("x"), Index::Map("0".into())),
+        t if t.starts_with("#api:") => return Err(format!("unknown api rule {t}")),
+        t => Expr::parse(t).map_err(|e| format!("rule {t:?}: {e}"))?,
+    })
 }
 
 type Outs = Vec<(String, Obs)>;
@@ -452,6 +490,199 @@ fn pile_up_leg(acc: &mut Acc, n: usize) {
     }
 }
 
+/// N evaluations of one ruleset in flight at the same time (N above every plausible pool size),
+/// their arguments overlapping, every call suspending once.  Schedules: round-robin forwards and
+/// backwards, and for every evaluation v: all polled twice, v driven to completion, then the rest.
+/// Oracle: outcomes and per-evaluation call log of the isolated run.
+fn crowd_leg(acc: &mut Acc, n: usize) {
+    let world = Arc::new(Mutex::new(World::default()));
+    let rules: Vec<String> = ["c(id)", "c(other)", "[c(id), n(id)]", "c(third)", "c(id)"].iter().map(|s| s.to_string()).collect();
+    let rs = match build(&rules, &world) {
+        Ok(r) => r,
+        Err(m) => return acc.machinery(m),
+    };
+    let inputs: Vec<RV> = (0..n).map(|i| RV::map(&[("id", RV::Int(i as i128)), ("other", RV::Int(((i + 1) % n) as i128)), ("third", RV::Int(((i + n / 2) % n) as i128))])).collect();
+    let bases: Vec<_> = match inputs.iter().map(|i| baseline(&rules, i)).collect::<Result<Vec<_>, _>>() {
+        Ok(b) => b,
+        Err(m) => return acc.machinery(m),
+    };
+    let facts: Vec<Value> = inputs.iter().map(|i| i.to_value()).collect();
+    // schedule = (label, victim): victim None = plain round-robin
+    let mut schedules: Vec<(String, Option<usize>, bool)> = vec![("forward".into(), None, false), ("reverse".into(), None, true)];
+    for v in 0..n {
+        schedules.push((format!("finish-{v}-early"), Some(v), false));
+    }
+    for (label, victim, reverse) in schedules {
+        let always = Arc::new(Mutex::new(crate::engine::choice::Chooser::with_prefix(vec![1; 16 * n + 16])));
+        {
+            let mut g = world.lock().unwrap();
+            g.chooser = Some(always);
+            g.max_susp = 1;
+            g.log.clear();
+        }
+        let wc = Arc::new(WakeCount::default());
+        let mut futs: Vec<Option<EvalFut>> = facts.iter().map(|f| Some(Box::pin(rs.evaluate_value(f)) as EvalFut)).collect();
+        let mut results: Vec<Option<Result<Outs, String>>> = (0..n).map(|_| None).collect();
+        let mut poll = |t: usize, futs: &mut Vec<Option<EvalFut>>, results: &mut Vec<Option<Result<Outs, String>>>| {
+            if futs[t].is_none() {
+                return;
+            }
+            world.lock().unwrap().current = t;
+            match catch(|| poll_once(futs[t].as_mut().unwrap().as_mut(), &wc)) {
+                Ok(Poll::Ready(o)) => {
+                    futs[t] = None;
+                    results[t] = Some(owned(o));
+                }
+                Ok(Poll::Pending) => {}
+                Err(p) => {
+                    futs[t] = None;
+                    results[t] = Some(Err(format!("PANIC: {p}")));
+                }
+            }
+        };
+        let mut order: Vec<usize> = (0..n).collect();
+        if reverse {
+            order.reverse();
+        }
+        if let Some(v) = victim {
+            for _ in 0..2 {
+                for &t in &order {
+                    poll(t, &mut futs, &mut results);
+                }
+            }
+            for _ in 0..64 {
+                poll(v, &mut futs, &mut results);
+            }
+        }
+        for _ in 0..64 {
+            if futs.iter().all(|f| f.is_none()) {
+                break;
+            }
+            for &t in &order {
+                poll(t, &mut futs, &mut results);
+            }
+        }
+        drop(futs);
+        acc.count("executions", n as u64);
+        acc.count("crowd_schedules", 1);
+        let log = std::mem::take(&mut world.lock().unwrap().log);
+        for t in 0..n {
+            let my_log: Vec<(String, RV)> = log.iter().filter(|l| l.0 == t).map(|l| (l.1.clone(), l.2.clone())).collect();
+            let ok_out = results[t].as_ref().and_then(|r| r.as_ref().ok()) == Some(&bases[t].0);
+            if !ok_out || my_log != bases[t].1 {
+                let f = |l: &[(String, RV)]| l.iter().map(|(n, a)| format!("{n}({})", a.show())).collect::<Vec<_>>().join(" ");
+                acc.violation(Violation {
+                    sig: format!("crowd/{}", if ok_out { "calls" } else { "outcome" }),
+                    what: format!(
+                        "{n} evaluations of one ruleset in flight, schedule {label}: evaluation {t} returned {:?} with calls [{}]; alone it returns {:?} with calls [{}]",
+                        results[t].as_ref().map(|r| r.as_ref().map(|o| o.iter().map(|x| x.1.show()).collect::<Vec<_>>())),
+                        f(&my_log),
+                        bases[t].0.iter().map(|x| x.1.show()).collect::<Vec<_>>(),
+                        f(&bases[t].1)
+                    ),
+                    case: json!({"kind": "crowd", "n": n, "schedule": label}),
+                    size: n * 1000 + t,
+                });
+                break;
+            }
+        }
+        world.lock().unwrap().chooser = None;
+        acc.outcome("crowd");
+    }
+}
+
+/// Rule objects travel between rulesets: a rule taken from an outcome of ruleset A (or cloned
+/// before / after A was evaluated) is registered in ruleset B, whose symbols and input differ.
+/// Every chain of up to three rulesets over three symbol tables; oracle = the same rule text
+/// parsed afresh in a fresh ruleset with B's symbols.
+fn rule_reuse_leg(acc: &mut Acc) {
+    let texts = [":limit * i2", "i1 + i1", ":limit", "if :flag then :limit else i0", "c(:limit)", "id + :limit", "[:limit, id]", ":table.k", "is_some(:opt)"];
+    let tables: Vec<Vec<(&str, RV)>> = vec![
+        vec![("limit", RV::Int(10)), ("flag", RV::Bool(true)), ("table", RV::map(&[("k", RV::Int(1))])), ("opt", RV::None)],
+        vec![("limit", RV::Int(50)), ("flag", RV::Bool(false)), ("table", RV::map(&[("k", RV::Int(2))])), ("opt", RV::Int(1))],
+        vec![("limit", RV::str("fifty")), ("flag", RV::Bool(true)), ("table", RV::List(vec![])), ("opt", RV::None)],
+    ];
+    let inputs = [RV::map(&[("id", RV::Int(1))]), RV::map(&[("id", RV::Int(2))])];
+    let world = Arc::new(Mutex::new(World::default()));
+    let h = handler(&world);
+    let make = |rules: Vec<Rule>, table: &Vec<(&str, RV)>| -> Result<RuleSet, String> {
+        let mut b = ruleset();
+        for (n, v) in table {
+            b = b.with_symbol(n, v.to_value());
+        }
+        b = b.with_rules(rules).map_err(|e| e.to_string())?;
+        b = b.with_function(probe("c", true, &h)).map_err(|e| e.to_string())?;
+        Ok(b.build())
+    };
+    let fresh_rules = || -> Vec<Rule> {
+        texts.iter().enumerate().map(|(i, t)| if i % 2 == 0 { Rule::parse(&format!("// r{i}\n{t}")).unwrap() } else { Rule::new(format!("r{i}"), BTreeMap::new(), Expr::parse(t).unwrap()) }).collect()
+    };
+    let eval = |rs: &RuleSet, input: &RV| -> Result<(Outs, Vec<Rule>), String> {
+        let facts = input.to_value();
+        let out = catch(|| crate::engine::exec::block_on(rs.evaluate_value(&facts))).map_err(|p| format!("panicked: {p}"))??.map_err(|e| e.to_string())?;
+        let rules: Vec<Rule> = out.iter().map(|o| o.rule.clone()).collect();
+        Ok((out.into_iter().map(|o| (o.rule.name().to_string(), observe(Ok(o.value)))).collect(), rules))
+    };
+    // baselines: fresh rules, fresh ruleset, per (table, input)
+    let mut base: BTreeMap<(usize, usize), Outs> = BTreeMap::new();
+    for ti in 0..tables.len() {
+        for ii in 0..inputs.len() {
+            match make(fresh_rules(), &tables[ti]).and_then(|rs| eval(&rs, &inputs[ii])) {
+                Ok((o, _)) => {
+                    base.insert((ti, ii), o);
+                }
+                Err(m) => return acc.machinery(format!("rule-reuse baseline: {m}")),
+            }
+        }
+    }
+    let nt = tables.len();
+    for chain in 0..(nt * nt * nt) {
+        let tis = [chain % nt, chain / nt % nt, chain / nt / nt];
+        for carry in ["from-outcome", "clone-before-evaluation"] {
+            let mut rules = fresh_rules();
+            for (step, &ti) in tis.iter().enumerate() {
+                let ii = (step + chain) % inputs.len();
+                let kept = rules.clone();
+                let rs = match make(rules, &tables[ti]) {
+                    Ok(r) => r,
+                    Err(m) => return acc.machinery(format!("rule-reuse: {m}")),
+                };
+                acc.count("executions", 1);
+                acc.count("rule_reuse_evaluations", 1);
+                let got = eval(&rs, &inputs[ii]);
+                let ok = matches!(&got, Ok((o, _)) if Some(o) == base.get(&(ti, ii)));
+                if !ok {
+                    acc.violation(Violation {
+                        sig: format!("rule-reuse/{carry}"),
+                        what: format!(
+                            "rules carried ({carry}) through rulesets with symbol tables {:?}: at step {step} the outcomes are {:?}, freshly parsed rules give {:?}",
+                            &tis[..=step],
+                            got.as_ref().map(|(o, _)| o.iter().map(|x| x.1.show()).collect::<Vec<_>>()),
+                            base.get(&(ti, ii)).map(|o| o.iter().map(|x| x.1.show()).collect::<Vec<_>>())
+                        ),
+                        case: json!({"kind": "rule-reuse", "chain": tis, "carry": carry}),
+                        size: step * 100 + chain,
+                    });
+                    break;
+                }
+                rules = if carry == "from-outcome" { got.unwrap().1 } else { kept };
+                // a carried rule is still the rule that was written
+                let f = fresh_rules();
+                if rules != f {
+                    acc.violation(Violation {
+                        sig: "rule-reuse/rule-changed".into(),
+                        what: format!("a rule taken from an outcome no longer equals the rule that was registered (chain {:?}, step {step})", tis),
+                        case: json!({"kind": "rule-reuse", "chain": tis, "carry": carry}),
+                        size: step,
+                    });
+                    break;
+                }
+            }
+        }
+    }
+    acc.outcome("rule-reuse");
+}
+
 /// state that builds up over many *different* inputs (process-wide memo tables, bounded caches):
 /// evaluate N distinct inputs, then the first ones again; every outcome must equal the one the same
 /// input produced the first time round and the reference value
@@ -658,6 +889,12 @@ pub fn run(tier: Tier) -> i32 {
         Err(m) => acc.machinery(m),
     }
     pile_up_leg(&mut acc, 8);
+    let crowd: Vec<usize> = tier.pick(vec![17, 33, 65], vec![17, 33, 65, 130, 260]);
+    for &n in &crowd {
+        crowd_leg(&mut acc, n);
+    }
+    rep.bound("crowd_sizes", crowd);
+    rule_reuse_leg(&mut acc);
     expr_leg(&mut acc);
     many_inputs_leg(&mut acc, tier.pick(300, 3000));
     rep.absorb(acc);
@@ -706,6 +943,44 @@ pub fn replay(case: &serde_json::Value) -> i32 {
         }
         return 1;
     }
-    println!("only schedule cases of the scenario families can be replayed individually");
-    2
+    // legs outside the scenario families: re-run the whole (deterministic) leg
+    let kind = case.get("kind").and_then(|k| k.as_str()).unwrap_or("");
+    let mut acc = Acc::new();
+    match kind {
+        "crowd" => crowd_leg(&mut acc, case.get("n").and_then(|n| n.as_u64()).unwrap_or(17) as usize),
+        "pile-up" => pile_up_leg(&mut acc, case.get("n").and_then(|n| n.as_u64()).unwrap_or(8) as usize),
+        "rule-reuse" => rule_reuse_leg(&mut acc),
+        "many-inputs" => many_inputs_leg(&mut acc, 300),
+        "repetition" | "long-history" => {
+            let fname = case.get("family").and_then(|f| f.as_str()).unwrap_or("");
+            match fams.iter().find(|f| f.name == fname) {
+                Some(f) => {
+                    let rules: Vec<String> = f.rules.iter().map(|s| s.to_string()).collect();
+                    let bases: Vec<_> = f.inputs.iter().filter_map(|i| baseline(&rules, i).ok()).collect();
+                    if bases.len() != f.inputs.len() {
+                        println!("baseline failed");
+                        return 2;
+                    }
+                    sequential_legs(f, &rules, &bases, case.get("times").and_then(|n| n.as_u64()).unwrap_or(300) as usize, &mut acc);
+                }
+                None => {
+                    println!("unknown family {fname}");
+                    return 2;
+                }
+            }
+        }
+        _ => {
+            println!("this case kind cannot be replayed individually");
+            return 2;
+        }
+    }
+    if acc.violations.is_empty() {
+        println!("verdict: holds");
+        0
+    } else {
+        for v in acc.violations.values() {
+            println!("verdict: VIOLATED — {}", v.what);
+        }
+        1
+    }
 }
